@@ -153,6 +153,8 @@ def main(tier, seed, replay=None):
                       'a damage is non-trivial if it makes some object unreadable/different/mis-sized; quick: 1 small container exhaustively, thorough: 12 '
                       'small + 2 with a 66 kB compressed object (bit flips sampled there, exhaustive on the first/last 64 bytes)')
     ck.coq()
+    import tracecheck
+    tracecheck.check_traces(ck, 'C12', names=['pack_clean', 'topack', 'repack'])
     hist.run_histories(ck, 'C12', [('mixed', 60 if tier == 'quick' else 1500, 18, False)])
     nsh = 14
     jobs = [(ck.seed * 100 + 1, False, s, nsh) for s in range(nsh)]
